@@ -55,11 +55,7 @@ ASSUMPTIONS = [
 ]
 
 KNOWN_BRACE = 'C05-brace-override-keeps-old'
-KNOWN_UNION2 = 'C05-union-second-initializer'
-# VERIF_C05_UNIONFIX=1 (with VERIF_REPO=<copy of /repo with union-second-initializer.patch applied>): run the ALTERNATIVE model
-# Model/InitUnionFix.lean (`drv_c05 initu`) and generate second/third initializers in union lists as a matter of course
-UNIONFIX = bool(os.environ.get('VERIF_C05_UNIONFIX'))
-DRIVER_SUB = 'initu' if UNIONFIX else 'init'
+DRIVER_SUB = 'init'
 KNOWN_FLEX = 'C05-flex-reinit'      # region InitSpec.FlexReinit; reported as a known finding once known_findings.json lists it
 
 
@@ -616,9 +612,9 @@ class Gen:
         nleaves = self.count_leaves(t)
         target = rng.choice([0, 1, 2, nleaves // 2, nleaves, nleaves, nleaves + 1]) if rng.random() < 0.5 else rng.randint(0, min(nleaves + 1, 9))
         if isinstance(t, Agg) and t.union:
-            target = 1 if rng.random() < 0.93 else 2        # `{}` on a union is a GNU extension chibicc rejects; a second initializer is a known finding
-            if UNIONFIX:
-                target = rng.choice([1, 2, 2, 3])
+            # `{}` on a union is a GNU extension chibicc rejects; second and third initializers (6.7.9p19: the last one wins;
+            # parse.c union_rest since /repo e1837fd) are generated as a matter of course
+            target = rng.choice([1, 1, 1, 2, 2, 3])
         items = 0
         pdes = rng.choice([0.0, 0.0, 0.15, 0.4, 0.8])
         seen_paths = []
@@ -1188,6 +1184,7 @@ class Runner:
         if wide:
             corr.count('wide-range-designator')
         reinit = ' reinit=1' in spec_txt    # region FlexReinit: a second initializer for the flexible array member
+
         flexnote = bool({'flex-elided-then-designator', 'flex-designator-into-unresolved'} & set(c['notes']))
         if reinit:
             corr.count('region:flex-reinit')
@@ -1231,10 +1228,7 @@ class Runner:
             if k not in grej and spec_ok:
                 # both chibicc and its model reject something gcc and the specification accept
                 rc, o, e = self.pedantic(c)
-                if rc == 0 and 'union-multi-init' in c['notes'] and "expected '}'" in str(crej[k]):
-                    self.violation({'what': 'a union initializer list with a second initializer is rejected', 'input': inp,
-                                    'expected': 'accepted (gcc -std=c11 -pedantic-errors accepts it)', 'got': str(crej[k]).strip()}, c, KNOWN_UNION2)
-                elif reinit or flexnote:
+                if reinit or flexnote:
                     self.flex_divergence({'what': 'an initializer that comes back to the flexible array member (or designates into it before it '
                                                   'has a length, or a designator after its elided first initializer) is rejected',
                                           'input': inp, 'expected': 'accepted (gcc -std=gnu11 accepts it: the array grows)',
@@ -1287,10 +1281,16 @@ class Runner:
         # ---- model <-> code (all bytes)
         ms = model_cells(m.get('static', '')) if not m.get('static', 'fail').startswith('fail') else None
         ma = model_cells(m.get('auto', '')) if not m.get('auto', 'fail').startswith('fail') else None
+        # what gcc says about the case goes into the record of a broken tie: if the model no longer describes the code AND the code
+        # differs from the oracle there, `search` has its failing input at once (also inside a known region, where the difference
+        # alone would be attributed to the finding)
+        gs0 = symbolize(*gd[(k, 's')], strings) if (gd and k not in grej and (k, 's') in gd) else None
+        odiff = {'gcc': show_cells(gs0), 'oracle_differs': masked_equal(cs, gs0, mask) is not None,
+                 'replay_case': {'line': c['line'], 'ctext': c['ctext'], 'cdefs': c['cdefs']}} if gs0 is not None else {}
         if ms is None or ms != cs:
-            corr.disagreements.append({'kind': 'static image', 'input': inp, 'impl': show_cells(cs), 'model': m.get('static')})
+            corr.disagreements.append(dict({'kind': 'static image', 'input': inp, 'impl': show_cells(cs), 'model': m.get('static')}, **odiff))
         if ca is not None and (ma is None or ma != ca):
-            corr.disagreements.append({'kind': 'automatic object', 'input': inp, 'impl': show_cells(ca), 'model': m.get('auto')})
+            corr.disagreements.append(dict({'kind': 'automatic object', 'input': inp, 'impl': show_cells(ca), 'model': m.get('auto')}, **odiff))
         # ---- emit_data
         obj = asm_objs.get(f's{k}')
         if obj is not None:
@@ -1502,7 +1502,14 @@ def flex_reinit_witness(ctx, corr):
                                     'input': FLEX_WITNESS, 'expected': f"gcc: {sizes.get('gcc')} bytes", 'got': f"chibicc: {sizes.get('chibicc')} bytes"})
 
 def search(ctx, broken, corr):
-    """the proof or the tie broke without a direct violation: look for an oracle failure on more cases"""
+    """the proof or the tie broke without a direct violation: (a) a disagreeing input on which the code also differs from gcc,
+    (b) an oracle failure on more cases"""
+    for b in broken:
+        d = b.get('what') if isinstance(b, dict) else None
+        if isinstance(d, dict) and d.get('oracle_differs'):
+            return {'what': 'object value differs from C11 6.7.9 (gcc) on an input where the model no longer describes the code',
+                    'input': d.get('input'), 'expected': 'gcc    ' + str(d.get('gcc')), 'got': 'chibicc ' + str(d.get('impl')),
+                    'replay_case': d.get('replay_case')}
     gen = Gen(ctx.rng, True)
     c2 = Corr()
     runner = Runner(ctx, c2)
@@ -1557,6 +1564,9 @@ MANIFEST = {
                   'after a designator, excess elements, strings, union member selection (p10).  Unknown bound = largest index + 1 (p22): proved '
                   '(C05_count_partial) by running count_array_init_elements (a dry run on a dummy tree), the real loop and the specification in '
                   'lockstep; the dry run consumes the same tokens as the real run because every parser function commutes with erasing the tree.  '
+                  'A union\'s list may hold several initializers (union_rest of /repo e1837fd, model unionRest, a loop in the simulation): '
+                  'covered while they stay with the member initialised so far; a member switch is noted by the specification as `over` (agreement '
+                  'there when it happens in the union\'s own list: tested tie + exhaustive scope Findings C05_union_scope).  '
                   'Flexible array member: new_initializer(is_flexible) leaves the length open, the first initializer fixes it - a brace-enclosed '
                   'list (the lockstep of unknown bounds again), a string literal, or elided braces (array_initializer2 counts over the rest of '
                   'the struct\'s list: a second lockstep, flexLoop) - and the re-typed object has sizeof(struct) + n*sizeof(elem) bytes in both '
@@ -1575,7 +1585,7 @@ MANIFEST = {
                   'designator follows - those spellings are generated and compared), FlexReinit (GNU: a second initializer for the flexible array '
                   'member of the declared object: gcc lets the array grow, chibicc keeps the length of the first initializer; generated, model and '
                   'specification compared with their compilers, chibicc <-> gcc counted), and for type terms no C declaration produces.  Known '
-                  'findings: C05-brace-override-keeps-old, C05-union-second-initializer, C05-agg-expr-then-member.',
+                  'findings: C05-brace-override-keeps-old, C05-agg-expr-then-member, C05-flex-reinit (C05-union-second-initializer repaired: /repo e1837fd).',
     'technique': 'Lean 4: both back ends reduced to folds over one leaf list by structural recursion over the initializer tree; bit-level frame '
                  'reasoning over little-endian storage units for the bit-field merge; interval arithmetic over layouts; monotonicity of a 12-function '
                  'mutual fuel recursion; forward simulation (14 mutually dependent statements, induction on fuel) of the recursive-descent parser by a '
